@@ -618,4 +618,6 @@ func genC06(c *Ctx) {
 		}
 	}
 	c.Emit("c06.minbits", sx.N(^uint64(0)), "minbits|max")
+	// 6. derived bit strings (results of ReadBits / ReadRemainingBits / Copy / RawBitString): c06d.go
+	genC06Derived(c)
 }
